@@ -1,3 +1,4 @@
 import ArroyProofs.AuditCmd
 import ArroyProofs.Properties.C06
+import ArroyProofs.Properties.C06Build
 #audit Arroy.C06
